@@ -312,6 +312,12 @@ func init() {
 			return []V{verdict}
 		case "run":
 			return c18Run(a[1].S)
+		case "raterule":
+			// c18 raterule x<country> x<cat> x<key> -> 1/0: tax.RegimeDefFor(country).InCategoryRates(cat) applied to
+			// the key alone (the rule Combo.ValidateWithContext puts on `rate`), without any calculation before it
+			r := tax.RegimeDefFor(l10n.Code(a[1].Str()))
+			err := r.InCategoryRates(cbc.Code(a[2].Str())).Validate(cbc.Key(a[3].Str()))
+			return []V{VB(err == nil)}
 		case "match":
 			re, err := regexp.Compile(a[1].Str())
 			if err != nil {
